@@ -130,17 +130,18 @@ c.ens("ToUnicode-wins-then-encoding", lambda self, cid, result: (
 # -- PDFFont.char_width: numeric-key width, else width keyed by the code's text, else default; times hscale -----------------------------
 _tu = stub("pdfminer.pdffont:PDFFont.to_unichr", ["self", "cid"], T.Int(10 ** 6, 2 * 10 ** 6))
 _tu.may_raise(PDFUnicodeNotDefined, None)
-c = contract("pdfminer.pdffont:PDFFont.char_width", props=["C06", "C05"])
+c = contract("pdfminer.pdffont:PDFFont.char_width", props=["C06", "C05", "C12"])
+c.mod = []      # a query: in particular self.widths (for a standard-14 font the process-wide FONT_METRICS table itself) is left as it was
 c.param("self", T.Obj("pdfminer.pdffont:PDFFont", widths=T.IntMap(real=True), default_width=T.Real(), hscale=T.Real())).param("cid", T.Int(0, 255))
 c.skip_cross = True
 c.stubs = {"pdfminer.pdffont:PDFFont.to_unichr": _tu}
 c.returns(T.Real())
-c.ens("width-precedence-and-scale", lambda self, cid, result, trace: If(
+c.ens("width-precedence-and-scale", lambda old, cid, result, trace: (lambda self: If(
     self.widths.has(cid), eq(result, self.widths.get(cid) * self.hscale),
     (If(self.widths.has(trace[0][1]["__result__"]), eq(result, self.widths.get(trace[0][1]["__result__"]) * self.hscale),
         eq(result, self.default_width * self.hscale))
-     if (trace and "__result__" in trace[0][1]) else eq(result, self.default_width * self.hscale))))
-c.ens("text-lookup-only-when-no-numeric-entry", lambda self, cid, trace: Implies(self.widths.has(cid), len(trace) == 0))
+     if (trace and "__result__" in trace[0][1]) else eq(result, self.default_width * self.hscale))))(old.self))
+c.ens("text-lookup-only-when-no-numeric-entry", lambda old, cid, trace: Implies(old.self.widths.has(cid), len(trace) == 0))
 
 
 # -- width tables from FirstChar/Widths; Type3 scale from FontMatrix -----------------------------------------------------------------------
